@@ -205,6 +205,27 @@ func (c *Case) Known(key string) bool {
 	return true
 }
 
+// KnownPanic maps a panic (by a substring of its stack) to a known-finding key.
+type KnownPanic struct {
+	StackContains string
+	Key           string
+	Owner         string // the property that lists the finding
+}
+
+// KnownPanics is consulted by Guard.
+var KnownPanics = []KnownPanic{
+}
+
+func knownAnyProp(key string) bool {
+	knownOnce.Do(loadKnown)
+	for _, f := range known {
+		if f.Key == key && f.Status == "known" {
+			return true
+		}
+	}
+	return false
+}
+
 // IsKnown is Known without a case (used by generators that exclude a known
 // defect by construction).
 func IsKnown(prop, key string) bool {
@@ -258,6 +279,20 @@ func (c *Case) Guard(what string, f func()) {
 				panic(r)
 			}
 			st := string(debug.Stack())
+			for _, kp := range KnownPanics {
+				if strings.Contains(st, kp.StackContains) && knownAnyProp(kp.Key) {
+					// a panic that is a listed known finding (owned by the totality property):
+					// the case cannot be judged; it is counted and discarded
+					c.sub.mu.Lock()
+					c.sub.KnownHits[kp.Key]++
+					c.sub.mu.Unlock()
+					if c.sub.Prop == kp.Owner && !c.Known(kp.Key) {
+						break
+					}
+					c.finished = true
+					c.T.Skip("known panic: " + kp.Key)
+				}
+			}
 			c.Set("panic_stack", trimStack(st))
 			c.Failf("panic:"+what, "panic in %s: %v", what, r)
 		}
